@@ -65,24 +65,24 @@ macro_rules! c12_layout {
         pub mod $short {
             use super::*;
             #[kani::proof]
-            #[kani::unwind(258)]
+            #[kani::unwind(300)]
             pub fn c12_q_witness() {
                 c12_witness::<_, chars::$ty>(stringify!($ty), &$ty);
             }
             /// the same witness table through both AnyLayout impls (what a runtime-selected layout types)
             #[kani::proof]
-            #[kani::unwind(258)]
+            #[kani::unwind(300)]
             pub fn c12_q_witness_any() {
                 c12_witness::<_, chars::$ty>(concat!("AnyLayout::", stringify!($ty)), &AnyLayout::$ty($ty));
             }
             #[kani::proof]
-            #[kani::unwind(258)]
+            #[kani::unwind(300)]
             pub fn c12_q_witness_anyref() {
                 let a = AnyLayout::$ty($ty);
                 c12_witness::<_, chars::$ty>(concat!("&AnyLayout::", stringify!($ty)), &&a);
             }
             #[kani::proof]
-            #[kani::unwind(258)]
+            #[kani::unwind(300)]
             pub fn c12_t_direct() {
                 c12_direct(stringify!($ty), &$ty);
             }
